@@ -245,6 +245,7 @@ def _make_gen(dist):
         stream = uf('SeededStream', z3.IntSort(), z3.IntSort())(seed)
         params = [to_real(p) for p in build(a)]
         D = uf('Draw_' + family, *([z3.IntSort()] * 3 + [z3.RealSort()] * len(params) + [z3.RealSort()]))
+        e0 = 0
         v = out.value
         if isinstance(v, SArr):
             j = z3.Int('j')
